@@ -57,6 +57,15 @@ func TestVerifC02(t *testing.T) {
 				c02AggStream(w, st)
 				c02CreateStream(w, st)
 				c02SchemeStream(w, st)
+				// single signatures first, then certificates built from them (warm cache)
+				switch {
+				case n == 4 && scheme != crypto.NameBLS12:
+					c02WarmStream(w, st, c02Subsets(4))
+				case n == 4:
+					c02WarmStream(w, st, [][]uint64{{}, {1}, {1, 2}, {1, 2, 3, 4}})
+				case n == 7 && scheme != crypto.NameBLS12:
+					c02WarmStream(w, st, [][]uint64{{1}, {2, 5}, {1, 2, 3, 4}, {1, 2, 3, 4, 5, 6, 7}})
+				}
 			})
 		}
 		// non-contiguous and large replica ids; ids that agree in their low 8 / 16 bits; type boundaries
@@ -125,6 +134,7 @@ func (w *c02World) evalQC(st *c02Streams, q *c02QC, mut string, honest bool) {
 				}
 			}
 			meta := w.meta("qc", mut, q.term, vi, cache, o)
+			w.warmCompare("qc", cache, o, meta)
 			if !cache && w.grow == nil { // a long-lived Authority must answer like a fresh one
 				ol := c02Run(func() error { return w.long[vi].VerifyQuorumCert(q.obj) })
 				w.oracle(ol == o, "qc:stateful-verdict", "a long-lived Authority (no cache) answers "+ol+" where a fresh one answers "+o, meta)
@@ -166,6 +176,9 @@ func (w *c02World) wantCall(mut string, honest bool, vi int, cache bool) bool {
 	if strings.HasPrefix(mut, "pop:") {
 		return true
 	}
+	if w.warm != nil {
+		return vi == 0 // cache-less first, then the Authority with the warm cache
+	}
 	if w.v.Thorough() && mut != "enum-labels" {
 		return true
 	}
@@ -191,6 +204,21 @@ func (w *c02World) wantCall(mut string, honest bool, vi int, cache bool) bool {
 // member without a usable key; completeness is then claimed only for the cases written for that world.
 func (w *c02World) honestHere(mut string, honest bool) bool {
 	return honest && (len(w.badPop) == 0 || strings.HasPrefix(mut, "pop:"))
+}
+
+// warmCompare: an Authority whose cache already holds single signatures (its own, votes and timeout
+// signatures it verified one by one) must give the verdict of a cache-less Authority.
+func (w *c02World) warmCompare(kind string, cache bool, o string, meta map[string]any) {
+	if w.warm == nil {
+		return
+	}
+	if !cache {
+		w.offSeen = o
+		return
+	}
+	meta["warm_cache"] = w.warmDesc
+	w.oracle(o == w.offSeen, kind+":warm-cache-verdict",
+		"an Authority whose cache holds single signatures ("+w.warmDesc+") answers "+o+" where a cache-less Authority answers "+w.offSeen, meta)
 }
 
 func (w *c02World) rnd(q, t int) int {
